@@ -586,6 +586,32 @@ def run(ctx):
     dist["srt_documents_compared_with_writer_model"] = len(sw)
     dist["srt_documents_differing_from_writer_model"] = sdiff
     dist["srt_documents_not_compared_outside_the_clean_line_domain"] = sskip
+    # the string-level WebVTT writer model (request 805, theorem C08_vtt_roundtrip_string; escaping included) against the
+    # real writer, on the generated single-language sets with WebVTT on the chain whose captions are plain lines (one text
+    # node per line, single breaks, no style, no layout; any characters)
+    vw, vskip = [], 0
+    for (chain, langs, li, cues, texts, t1, t2) in work:
+        if len(langs) != 1 or 1 not in chain:
+            continue
+        pl = [plain_lines(sp) for sp in langs[0][1]]
+        if any(x is None for x in pl):
+            vskip += 1
+            continue
+        vw.append((langs[0][0], pl, langs[0][1]))
+    vw = vw[:ctx.n(400, 4000)]
+    vdocs = []
+    for i in range(0, len(vw), 200):
+        vdocs += oracle_batch([(805, [[c[0], c[1], tx] for c, tx in zip(cu, txs)]) for (cu, txs, sp) in vw[i:i + 200]])
+    vdiff = 0
+    for (cu, txs, sp), d in zip(vw, vdocs):
+        real = impl.call(lambda: WebVTTWriter().write(build([(cu, sp)])))
+        if not (isinstance(real, Ok) and real.v == d):
+            vdiff += 1
+            res["disagreements"].append({"what": "WebVTT writer model document differs from the real writer's",
+                                         "cues": cu, "texts": txs, "model": d, "impl": show(real)})
+    dist["vtt_documents_compared_with_writer_model"] = len(vw)
+    dist["vtt_documents_differing_from_writer_model"] = vdiff
+    dist["vtt_documents_not_compared_styles_layouts_or_several_nodes_per_line"] = vskip
     dist["chain_length_histogram"] = lens
     dist["pairs"] = len(pairs)
     dist["sets_per_pair"] = per_pair
